@@ -247,6 +247,10 @@ func init() {
 // ---------------------------------------------------------------- C09
 
 func runC09(w *World, r *Report) {
+	r.Rule("tailguard", "a decoder that keeps the rest of its input from some offset admits every input that has a byte there", 1)
+	tailGuardRule(w, r, "tailguard", func(k *Kind) bool { return strings.HasPrefix(k.Name, "protocol.") })
+	r.Rule("observers", "methods that formatting calls implicitly (String, Error, …) leave the value unchanged", 1)
+	observerRule(w, r, "observers", "protocol", "util")
 	r.Rule("reject", "every error exit of a decoder is behind a short input, a failed child or an unknown code, or is a reviewed rejection by value (spec/rejections.json)", 20)
 	rejectRule(w, r, "reject", func(pkg string) bool { return pkg == "protocol" })
 	r.Rule("stateless", "packet codecs depend on no package-level state that a call can change (pooled buffers, caches, shared table entries)", 8)
